@@ -16,7 +16,7 @@ import ast
 import copy
 
 from .core import AnalysisError
-from .inline import InlineBlock
+from .inline import InlineBlock, acopy
 
 
 class Node:
@@ -244,7 +244,7 @@ class CFG:
             if bend and s.target is not None:
                 # falling off the end of the callee returns None
                 a = ast.copy_location(ast.Assign(
-                    [copy.deepcopy(s.target)], ast.Constant(None)), s)
+                    [acopy(s.target)], ast.Constant(None)), s)
                 ast.fix_missing_locations(a)
                 n = self._new("stmt", a, {"inline_return": s})
                 self._connect(bend, n)
@@ -256,7 +256,7 @@ class CFG:
                 tgt = ctx.rett[0]
                 if tgt is not None:
                     a = ast.copy_location(ast.Assign(
-                        [copy.deepcopy(tgt)],
+                        [acopy(tgt)],
                         s.value if s.value is not None
                         else ast.Constant(None)), s)
                 else:
